@@ -318,14 +318,36 @@ def shape_label(sh):
     return sh[0] + "(" + " ".join(shape_label(c) for c in sh[1]) + ")"
 
 
-PRELUDE = ('var a=2,b=3,c=5,d=7,e=11,g=13,h=17,s="p";'
-           'function f(x){return x===undefined?19:x*23}'
-           'function K(x){this.p=x===undefined?29:x+31}'
-           'K.prototype.valueOf=function(){return this.p};'
-           'var o=new K(6);o.q=function(x){return this.p+41+(x===undefined?0:x)};o.K=K;'
-           'var r=[43,47,53,59,61,67,71,73,79];')
-EPILOGUE = ';__out([a,b,c,d,e,g,h,o.p,r.length,r[0],r[1],r[2],r[3],r[5],r[6],r[8]]);'
+import re as _re
+
+NUMVAL = {"a": 2, "b": 3, "c": 5, "d": 7, "e": 11, "g": 13, "h": 17}
+_ident = _re.compile(r"[A-Za-z]+")
+
+
+def prelude_epilogue(expr_src):
+    """Declarations of exactly the operands the expression mentions, and the state log after it."""
+    used = set(_ident.findall(expr_src))
+    nums = [v for v in NUMVARS if v in used]
+    decl = ["%s=%d" % (v, NUMVAL[v]) for v in nums]
+    if "s" in used:
+        decl.append('s="p"')
+    if "r" in used:
+        decl.append("r=[43,47,53,59,61,67,71,73,79]")
+    pre = ("var " + ",".join(decl) + ";") if decl else ""
+    if "f" in used:
+        pre += "function f(x){return x*23}"
+    if "K" in used or "o" in used:
+        pre += "function K(x){this.p=x+31}"
+    if "o" in used:
+        pre += "var o=new K(6);o.q=function(x){return this.p+x};o.K=K;"
+    log = nums + (["o.p"] if "o" in used else [])
+    epi = ";__out([" + ",".join(log) + "]);" + ("__out(r);" if "r" in used else "")
+    return pre, epi
+
+
+PRELUDE, EPILOGUE = prelude_epilogue("a b c d e g h s r f K o")
 
 
 def program(expr_src):
-    return PRELUDE + "__out(" + expr_src + ")" + EPILOGUE
+    pre, epi = prelude_epilogue(expr_src)
+    return pre + "__out(" + expr_src + ")" + epi
